@@ -125,7 +125,7 @@ def gen_case(rng, tier="quick", force=None):
     def wt():
         return fr(rng.choice(WEIGHTS)) if weighted else None
 
-    ntrees = min(40, max(1, int(rng.expovariate(1 / 9.0)) + 1))
+    ntrees = min(40, max(1, int(rng.expovariate(1 / 12.0)) + 1))
     # multiset: skewed multiplicities so that frequencies are non-trivial
     bias = [rng.random() ** 2 + 0.05 for _ in pool]
     picks = rng.choices(range(npool), weights=bias, k=ntrees)
@@ -1168,7 +1168,17 @@ def run(tier, seed, replay=None):
             if o[0] == "Summarize":
                 ctx.count("mode:%s" % o[2]["mode"])
     sd_complex_probe(ctx)
-    core.corr_stage(ctx, cases, observe, to_coq, HEADER, "case_ok", oracle=oracle,
+
+    def observe_counting(case):
+        obs = observe(case)
+        for op, (out, _snap) in zip(case["ops"], obs["steps"]):
+            if out[0] == "UErr":
+                ctx.count("err:%s:%s" % (op[0], out[1]))
+            elif op[0] == "Consensus":
+                ctx.count("consensus:%s:%d-clades" % ("majority" if (op[1] not in ("default", None) and 2 * op[1][0] > op[1][1]) else "greedy", min(len(out[1]), 5)))
+        return obs
+
+    core.corr_stage(ctx, cases, observe_counting, to_coq, HEADER, "case_ok", oracle=oracle,
                     show_fn="case_run", nontrivial=nontrivial, search=search, shard=60 if tier == "quick" else 120,
                     sample_fn=sample_fn)
     return ctx.finish(level="proof",
